@@ -2,15 +2,22 @@
 
 package remote
 
-// C04 for fs/remote: hostile HTTP range metadata.  parseRange on arbitrary Content-Range headers and
-// blob.ReadAt / blob.Cache against a fetcher whose reply parts carry arbitrary regions (unaligned,
-// reversed, beyond the blob, overlapping, huge) and arbitrary amounts of data.  Every input runs in a
-// crash-isolated child (internal/verifc04); the byte-exactness of the replies is C06's business, here
-// only "error, never a crash or a hang" is checked.
+// C04 for fs/remote: hostile registry replies.  A scripted http.RoundTripper plays the registry
+// under the REAL resolver/fetcher/blob code, reached through the exported API only
+// (NewResolver(...).Resolve -> Blob.ReadAt / Cache / Check), so that a refactoring of the package's
+// internals cannot break the harness:
+//   * reply parts with arbitrary Content-Range texts (unaligned, reversed, beyond the blob,
+//     overlapping, repeated, huge, malformed) and arbitrary amounts of data, as multipart or single part;
+//   * registry "personalities" that repeat one status for ever (403 on every ranged GET with a healthy
+//     location probe, 400 for ever, alternating 403/400, redirect loops, ...), with an oracle bounding
+//     the number of requests one ReadAt / Cache / Check may cause.
+// Every input runs in a crash-isolated child (internal/verifc04); the byte-exactness of the replies is
+// C06's business, here only "error, never a crash, a hang or a request storm" is checked.
 
 import (
 	"bytes"
 	"context"
+	"encoding/hex"
 	"fmt"
 	"io"
 	"net/http"
@@ -18,71 +25,33 @@ import (
 	"strings"
 	"sync"
 	"testing"
-	"time"
 
+	"github.com/containerd/containerd/v2/core/remotes/docker"
+	"github.com/containerd/containerd/v2/pkg/reference"
 	"github.com/containerd/stargz-snapshotter/cache"
+	"github.com/containerd/stargz-snapshotter/fs/config"
 	"github.com/containerd/stargz-snapshotter/internal/verifc04"
 	"github.com/containerd/stargz-snapshotter/internal/verifutil"
+	digest "github.com/opencontainers/go-digest"
+	ocispec "github.com/opencontainers/image-spec/specs-go/v1"
 )
 
 type verifC04Part struct {
-	reg region
-	n   int64
+	cr string // Content-Range text of the part
+	n  int64  // bytes of body
 }
 
-type verifC04Fetcher struct{ parts []verifC04Part }
-
-type verifC04MR struct {
-	parts []verifC04Part
-	i     int
-}
-
-type verifC04Zero struct{ n int64 }
-
-func (z *verifC04Zero) Read(p []byte) (int, error) {
-	if z.n <= 0 {
-		return 0, io.EOF
-	}
-	if int64(len(p)) > z.n {
-		p = p[:z.n]
-	}
-	for i := range p {
-		p[i] = 0
-	}
-	z.n -= int64(len(p))
-	return len(p), nil
-}
-
-func (m *verifC04MR) Next() (region, io.Reader, error) {
-	if m.i >= len(m.parts) {
-		return region{}, nil, io.EOF
-	}
-	p := m.parts[m.i]
-	m.i++
-	n := p.n
-	if n > 1<<20 {
-		n = 1 << 20 // a server cannot be asked for more than it sends; keep the test cheap
-	}
-	return p.reg, &verifC04Zero{n}, nil
-}
-func (m *verifC04MR) Close() error { return nil }
-
-func (f *verifC04Fetcher) fetch(ctx context.Context, rs []region, retry bool) (multipartReadCloser, error) {
-	return &verifC04MR{parts: f.parts}, nil
-}
-func (f *verifC04Fetcher) check() error { return nil }
-func (f *verifC04Fetcher) genID(reg region) string {
-	return fmt.Sprintf("%d-%d", reg.b, reg.e)
-}
-
-// ---- registry personalities: a scripted http.RoundTripper under the REAL httpFetcher -------------
-
-// verifC04Srv answers every request according to its personality, counts the requests and refuses to
-// answer after verifC04ReqCap of them (so that a request storm ends quickly and is reported).
+// verifC04Srv answers healthily until it is armed (the blob has to be resolved first), then according
+// to its personality or its scripted parts.  It counts the requests and refuses to answer after
+// verifC04ReqCap of them (so that a request storm ends quickly and is reported).
 type verifC04Srv struct {
 	pers   string
+	parts  []verifC04Part
+	single bool // answer the parts as ONE single-part 206 (first part only)
 	size   int64
+
 	mu     sync.Mutex
+	armed  bool
 	nProbe int
 	nRange int
 	nOther int
@@ -95,7 +64,17 @@ const verifC04ReqCap = 200
 // 1 refresh per check; a ReadAt/Cache is one fetch (plus at most one retry of fetchRange).
 const verifC04ReqBound = 8
 
-func (s *verifC04Srv) total() int { return s.nProbe + s.nRange + s.nOther }
+func (s *verifC04Srv) arm() {
+	s.mu.Lock()
+	s.armed, s.nProbe, s.nRange, s.nOther, s.capped = true, 0, 0, 0, false
+	s.mu.Unlock()
+}
+
+func (s *verifC04Srv) counts() (total, ranged, probes int, capped bool) {
+	s.mu.Lock()
+	defer s.mu.Unlock()
+	return s.nProbe + s.nRange + s.nOther, s.nRange, s.nProbe, s.capped
+}
 
 func verifC04Resp(req *http.Request, code int, hdr map[string]string, body []byte) *http.Response {
 	h := http.Header{}
@@ -106,13 +85,23 @@ func verifC04Resp(req *http.Request, code int, hdr map[string]string, body []byt
 		Body: io.NopCloser(bytes.NewReader(body)), ContentLength: int64(len(body)), Request: req, Proto: "HTTP/1.1", ProtoMajor: 1, ProtoMinor: 1}
 }
 
+func verifC04Zeros(n int64) []byte {
+	if n < 0 {
+		n = 0
+	}
+	if n > 1<<20 {
+		n = 1 << 20 // a server cannot be asked for more than it sends; keep the test cheap
+	}
+	return make([]byte, n)
+}
+
 func (s *verifC04Srv) RoundTrip(req *http.Request) (*http.Response, error) {
 	s.mu.Lock()
 	defer s.mu.Unlock()
 	if err := req.Context().Err(); err != nil {
 		return nil, err
 	}
-	if s.total() >= verifC04ReqCap {
+	if s.nProbe+s.nRange+s.nOther >= verifC04ReqCap {
 		s.capped = true
 		return nil, fmt.Errorf("verif: request cap reached")
 	}
@@ -130,15 +119,44 @@ func (s *verifC04Srv) RoundTrip(req *http.Request) (*http.Response, error) {
 	healthy := func() *http.Response {
 		var b, e int64
 		if n, _ := fmt.Sscanf(strings.SplitN(strings.TrimPrefix(rng, "bytes="), ",", 2)[0], "%d-%d", &b, &e); n == 2 && !strings.Contains(rng, ",") && b >= 0 && e >= b && e < s.size {
-			return verifC04Resp(req, 206, map[string]string{"Content-Range": fmt.Sprintf("bytes %d-%d/%d", b, e, s.size), "Content-Type": "application/octet-stream"}, make([]byte, e-b+1))
+			return verifC04Resp(req, 206, map[string]string{"Content-Range": fmt.Sprintf("bytes %d-%d/%d", b, e, s.size), "Content-Type": "application/octet-stream"}, verifC04Zeros(e-b+1))
 		}
-		return verifC04Resp(req, 200, map[string]string{"Content-Length": fmt.Sprint(s.size)}, make([]byte, s.size))
+		return verifC04Resp(req, 200, map[string]string{"Content-Length": fmt.Sprint(s.size)}, verifC04Zeros(s.size))
 	}
 	okProbe := func() *http.Response {
 		return verifC04Resp(req, 206, map[string]string{"Content-Range": fmt.Sprintf("bytes 0-1/%d", s.size)}, []byte{0, 0})
 	}
+	if req.Method == "HEAD" {
+		return verifC04Resp(req, 200, map[string]string{"Content-Length": fmt.Sprint(s.size)}, nil), nil
+	}
+	if !s.armed {
+		if probe {
+			return okProbe(), nil
+		}
+		return healthy(), nil
+	}
 	self := req.URL.String()
+	status := func(code int) (*http.Response, error) { return verifC04Resp(req, code, nil, nil), nil }
 	switch s.pers {
+	case "parts": // scripted reply parts
+		if probe {
+			return okProbe(), nil
+		}
+		if len(s.parts) == 0 {
+			return verifC04Resp(req, 206, map[string]string{"Content-Type": "multipart/byteranges; boundary=vb"}, []byte("--vb--\r\n")), nil
+		}
+		if s.single {
+			p := s.parts[0]
+			return verifC04Resp(req, 206, map[string]string{"Content-Range": p.cr, "Content-Type": "application/octet-stream"}, verifC04Zeros(p.n)), nil
+		}
+		var body bytes.Buffer
+		for _, p := range s.parts {
+			fmt.Fprintf(&body, "--vb\r\nContent-Type: application/octet-stream\r\nContent-Range: %s\r\n\r\n", p.cr)
+			body.Write(verifC04Zeros(p.n))
+			body.WriteString("\r\n")
+		}
+		body.WriteString("--vb--\r\n")
+		return verifC04Resp(req, 206, map[string]string{"Content-Type": "multipart/byteranges; boundary=vb"}, body.Bytes()), nil
 	case "healthy":
 		if probe {
 			return okProbe(), nil
@@ -148,55 +166,50 @@ func (s *verifC04Srv) RoundTrip(req *http.Request) (*http.Response, error) {
 		if probe {
 			return okProbe(), nil
 		}
-		return verifC04Resp(req, 403, nil, nil), nil
+		return status(403)
 	case "403-once":
 		if probe {
 			return okProbe(), nil
 		}
 		if s.nRange == 1 {
-			return verifC04Resp(req, 403, nil, nil), nil
+			return status(403)
 		}
 		return healthy(), nil
 	case "400-forever":
 		if probe {
 			return okProbe(), nil
 		}
-		return verifC04Resp(req, 400, nil, nil), nil
+		return status(400)
 	case "alt-403-400":
 		if probe {
 			return okProbe(), nil
 		}
 		if s.nRange%2 == 1 {
-			return verifC04Resp(req, 403, nil, nil), nil
+			return status(403)
 		}
-		return verifC04Resp(req, 400, nil, nil), nil
+		return status(400)
 	case "alt-400-403":
 		if probe {
 			return okProbe(), nil
 		}
 		if s.nRange%2 == 1 {
-			return verifC04Resp(req, 400, nil, nil), nil
+			return status(400)
 		}
-		return verifC04Resp(req, 403, nil, nil), nil
+		return status(403)
 	case "probe-redirect-self": // the probe is answered 307 to the very same URL, ranged GETs are refused
 		if probe {
 			return verifC04Resp(req, 307, map[string]string{"Location": self}, nil), nil
 		}
-		return verifC04Resp(req, 403, nil, nil), nil
+		return status(403)
 	case "redirect-everything": // 307 to itself whatever is asked
 		return verifC04Resp(req, 307, map[string]string{"Location": self}, nil), nil
-	case "403-everything":
-		return verifC04Resp(req, 403, nil, nil), nil
-	case "probe-403": // ranged GETs are refused and so is the probe
-		if probe {
-			return verifC04Resp(req, 403, nil, nil), nil
-		}
-		return verifC04Resp(req, 403, nil, nil), nil
+	case "403-everything", "probe-403":
+		return status(403)
 	case "500-forever":
 		if probe {
 			return okProbe(), nil
 		}
-		return verifC04Resp(req, 500, nil, nil), nil
+		return status(500)
 	case "206-no-content-range":
 		if probe {
 			return okProbe(), nil
@@ -207,52 +220,62 @@ func (s *verifC04Srv) RoundTrip(req *http.Request) (*http.Response, error) {
 			return okProbe(), nil
 		}
 		return verifC04Resp(req, 206, map[string]string{"Content-Type": "multipart/byteranges; boundary=x"}, []byte("--x\r\nContent-Range: bytes 5-2/3\r\n\r\nabc\r\n--x--\r\n")), nil
+	case "200-bad-length":
+		if probe {
+			return okProbe(), nil
+		}
+		return verifC04Resp(req, 200, map[string]string{"Content-Length": "-7"}, make([]byte, 4)), nil
 	}
-	return verifC04Resp(req, 404, nil, nil), nil
+	return status(404)
 }
 
 var verifC04Personalities = []string{"healthy", "403-forever", "403-once", "400-forever", "alt-403-400", "alt-400-403", "probe-redirect-self",
-	"redirect-everything", "403-everything", "probe-403", "500-forever", "206-no-content-range", "206-bad-multipart"}
+	"redirect-everything", "403-everything", "probe-403", "500-forever", "206-no-content-range", "206-bad-multipart", "200-bad-length"}
 
-// verifC04Server: "srv <personality> <singleRange 0|1> <size> <chunk> <off> <len>": blob.ReadAt, blob.Cache and
-// blob.Check through the real httpFetcher; the number of requests each of them causes is bounded.
-func verifC04Server(w []string, in *verifc04.Input, rec *verifc04.Rec) {
-	if len(w) != 7 {
-		rec.Fail("harness-bad-op", in.Op)
-		return
+// verifC04Blob resolves a blob of the given size against the (still healthy) server.
+func verifC04Blob(srv *verifC04Srv, chunk int64, singleRange bool) (Blob, error) {
+	hosts := func(ref reference.Spec) ([]docker.RegistryHost, error) {
+		return []docker.RegistryHost{{Client: &http.Client{Transport: srv}, Host: "reg.test", Scheme: "https", Path: "/v2",
+			Capabilities: docker.HostCapabilityPull | docker.HostCapabilityResolve}}, nil
 	}
-	var v [4]int64
-	for i := 0; i < 4; i++ {
-		x, err := strconv.ParseInt(w[3+i], 10, 64)
+	refspec, err := reference.Parse("reg.test/img/test:latest")
+	if err != nil {
+		return nil, err
+	}
+	res := NewResolver(config.BlobConfig{ChunkSize: chunk, CheckAlways: true, FetchTimeoutSec: 3, ForceSingleRangeMode: singleRange,
+		MaxRetries: 1, MinWaitMSec: 1, MaxWaitMSec: 2}, nil)
+	return res.Resolve(context.Background(), hosts, refspec, ocispec.Descriptor{Digest: digest.FromString("blob"), Size: srv.size}, cache.NewMemoryCache())
+}
+
+// verifC04Drive: one fresh blob + server per target, so that the request count belongs to one call.
+// ReadAt is only reached through an io.SectionReader over the blob (fs/layer), which lets offsets
+// 0 <= off < size through; the length is the reader's.  Cache is called with offset 0 and a size that
+// comes from the TOC (offset of the prefetch landmark): any int64.
+func verifC04Drive(rec *verifc04.Rec, in *verifc04.Input, mk func() *verifC04Srv, chunk int64, singleRange bool, off, ln int64, tag string) {
+	run := func(target string, f func(bl Blob) error) {
+		srv := mk()
+		bl, err := verifC04Blob(srv, chunk, singleRange)
 		if err != nil {
-			rec.Fail("harness-bad-op", in.Op)
+			rec.Fail("harness-resolve", fmt.Sprintf("%s: %v", in.Op, err))
 			return
 		}
-		v[i] = x
-	}
-	run := func(target string, f func(bl *blob) error) {
-		srv := &verifC04Srv{pers: w[1], size: v[0]}
-		u := "https://reg.test/v2/img/blobs/sha256:0000"
-		hf := &httpFetcher{url: u, blobURL: u, tr: srv, timeout: 3 * time.Second, singleRange: w[2] == "1"}
-		bl := makeBlob(hf, v[0], v[1], v[1], cache.NewMemoryCache(), time.Now(), time.Hour, nil, 3*time.Second)
+		srv.arm()
 		rec.Try(target, func() error { return f(bl) })
-		if n := srv.total(); n > verifC04ReqBound {
-			rec.Fail("request-storm:"+w[1], fmt.Sprintf("%s caused %d requests (%d ranged GETs, %d probes, cap reached: %v); at most %d are expected",
-				target, n, srv.nRange, srv.nProbe, srv.capped, verifC04ReqBound))
+		if n, ranged, probes, capped := srv.counts(); n > verifC04ReqBound {
+			rec.Fail("request-storm:"+tag, fmt.Sprintf("%s caused %d requests (%d ranged GETs, %d probes, cap reached: %v); at most %d are expected",
+				target, n, ranged, probes, capped, verifC04ReqBound))
 		}
+		bl.Close()
 	}
-	if v[2] >= 0 && v[2] < v[0] && v[3] >= 0 && v[3] <= 1<<20 {
-		run("srv.ReadAt", func(bl *blob) error {
-			_, err := bl.ReadAt(make([]byte, v[3]), v[2])
+	size := mk().size
+	if off >= 0 && off < size && ln >= 0 && ln <= 1<<20 {
+		run("blob.ReadAt", func(bl Blob) error {
+			_, err := bl.ReadAt(make([]byte, ln), off)
 			return err
 		})
 	}
-	run("srv.Cache", func(bl *blob) error { return bl.Cache(0, v[3]) })
-	run("srv.Check", func(bl *blob) error {
-		bl.lastCheck = time.Time{} // force the check
-		bl.checkInterval = 0
-		return bl.Check()
-	})
+	run("blob.Cache", func(bl Blob) error { return bl.Cache(0, ln) })
+	run("blob.Check", func(bl Blob) error { return bl.Check() })
 }
 
 func verifC04Run(in *verifc04.Input, rec *verifc04.Rec) {
@@ -260,52 +283,60 @@ func verifC04Run(in *verifc04.Input, rec *verifc04.Rec) {
 		return
 	}
 	w := strings.Fields(in.Op)
+	bad := func() { rec.Fail("harness-bad-op", in.Op) }
+	nums := func(ws []string) ([]int64, bool) {
+		var v []int64
+		for _, s := range ws {
+			x, err := strconv.ParseInt(s, 10, 64)
+			if err != nil {
+				return nil, false
+			}
+			v = append(v, x)
+		}
+		return v, true
+	}
 	switch w[0] {
-	case "srv":
-		verifC04Server(w, in, rec)
-	case "hdr":
-		rec.Try("parseRange", func() error {
-			_, _, err := parseRange(string(in.Data))
-			return err
-		})
-	case "blob":
-		// blob <size> <chunk> <off> <len> <b:e:n>...
-		if len(w) < 5 {
-			rec.Fail("harness-bad-op", in.Op)
+	case "srv": // srv <personality> <singleRange 0|1> <size> <chunk> <off> <len>
+		if len(w) != 7 {
+			bad()
 			return
 		}
-		var v [4]int64
-		for i := 0; i < 4; i++ {
-			x, err := strconv.ParseInt(w[1+i], 10, 64)
-			if err != nil {
-				rec.Fail("harness-bad-op", in.Op)
-				return
-			}
-			v[i] = x
+		v, ok := nums(w[3:])
+		if !ok || v[0] <= 0 || v[1] <= 0 {
+			bad()
+			return
 		}
-		f := &verifC04Fetcher{}
-		for _, s := range w[5:] {
+		verifC04Drive(rec, in, func() *verifC04Srv { return &verifC04Srv{pers: w[1], size: v[0]} }, v[1], w[2] == "1", v[2], v[3], w[1])
+	case "parts": // parts <single 0|1> <size> <chunk> <off> <len> <hex content-range>:<n> ...
+		if len(w) < 6 {
+			bad()
+			return
+		}
+		v, ok := nums(w[2:6])
+		if !ok || v[0] <= 0 || v[1] <= 0 {
+			bad()
+			return
+		}
+		var parts []verifC04Part
+		for _, s := range w[6:] {
 			q := strings.Split(s, ":")
-			if len(q) != 3 {
-				rec.Fail("harness-bad-op", in.Op)
+			if len(q) != 2 {
+				bad()
 				return
 			}
-			b, _ := strconv.ParseInt(q[0], 10, 64)
-			e, _ := strconv.ParseInt(q[1], 10, 64)
-			n, _ := strconv.ParseInt(q[2], 10, 64)
-			f.parts = append(f.parts, verifC04Part{region{b, e}, n})
+			cr, err1 := hex.DecodeString(q[0])
+			n, err2 := strconv.ParseInt(q[1], 10, 64)
+			if err1 != nil || err2 != nil {
+				bad()
+				return
+			}
+			parts = append(parts, verifC04Part{string(cr), n})
 		}
-		bl := makeBlob(f, v[0], v[1], v[1], cache.NewMemoryCache(), time.Now(), time.Hour, nil, 5*time.Second)
-		// ReadAt is only reached through an io.SectionReader over the blob (fs/layer), which lets
-		// offsets 0 <= off < size through; the length is the reader's.  Cache is called with offset 0
-		// and a size that comes from the TOC (offset of the prefetch landmark): any int64.
-		if v[2] >= 0 && v[2] < v[0] && v[3] >= 0 && v[3] <= 1<<20 {
-			rec.Try("blob.ReadAt", func() error {
-				_, err := bl.ReadAt(make([]byte, v[3]), v[2])
-				return err
-			})
-		}
-		rec.Try("blob.Cache", func() error { return bl.Cache(0, v[3]) })
+		verifC04Drive(rec, in, func() *verifC04Srv {
+			return &verifC04Srv{pers: "parts", parts: parts, single: w[1] == "1", size: v[0]}
+		}, v[1], w[1] == "1", v[2], v[3], "parts")
+	default:
+		bad()
 	}
 }
 
@@ -317,22 +348,30 @@ func TestVerifC04(t *testing.T) {
 	r := verifutil.NewRand(verifutil.Seed())
 	n := verifutil.EnvInt("VERIF_N", 600)
 	adv := func(bounds ...int64) int64 {
-		c := []int64{-1, 0, 1, 2, 3, 7, 8, 9, 1 << 31, 1 << 40, 1<<62 - 1, 1 << 62, 1<<63 - 1, -1 << 63, -1 << 62}
+		c := []int64{0, 1, 2, 3, 7, 8, 9, 1 << 31, 1 << 40, 1<<62 - 1, 1 << 62, 1<<63 - 1}
 		switch r.Pick(5, 3, 3) {
 		case 0:
-			return bounds[r.Intn(len(bounds))] + r.Range(-2, 2)
+			x := bounds[r.Intn(len(bounds))] + r.Range(-2, 2)
+			if x < 0 {
+				x = 0
+			}
+			return x
 		case 1:
 			return c[r.Intn(len(c))]
 		}
-		return r.Range(-3, 40)
+		return r.Range(0, 40)
+	}
+	cr := func(b, e, size int64) string {
+		return hex.EncodeToString([]byte(fmt.Sprintf("bytes %d-%d/%d", b, e, size)))
 	}
 	var inputs []verifc04.Input
 	// repaired by 26d4364: a reply that carries a chunk nobody asked for twice (overlapping parts)
 	inputs = append(inputs,
-		verifc04.Input{Class: "fixed:26d4364:reply-repeats-unrequested-chunk", Kind: "range", Op: "blob 100 1 37 14 7:7:1 5:7:3"},
-		verifc04.Input{Class: "scenario:reply-exact", Kind: "range", Op: "blob 100 10 35 10 30:49:20"})
-	// registry personalities under the real httpFetcher: every personality, both range modes, hand-written
-	// (one child each, never skipped) and then with generated sizes
+		verifc04.Input{Class: "fixed:26d4364:reply-repeats-unrequested-chunk", Kind: "range",
+			Op: fmt.Sprintf("parts 0 100 1 37 14 %s:1 %s:3", cr(7, 7, 100), cr(5, 7, 100))},
+		verifc04.Input{Class: "scenario:reply-exact", Kind: "range", Op: fmt.Sprintf("parts 1 100 10 35 10 %s:20", cr(30, 49, 100))})
+	// registry personalities: every personality, both range modes, hand-written (one child each, never
+	// skipped) and then with generated sizes
 	for _, p := range verifC04Personalities {
 		for _, sr := range []int{0, 1} {
 			inputs = append(inputs, verifc04.Input{Class: fmt.Sprintf("scenario:registry:%s:single=%d", p, sr), Kind: "range",
@@ -345,28 +384,26 @@ func TestVerifC04(t *testing.T) {
 			Op: fmt.Sprintf("srv %s %d %d %d %d %d", verifC04Personalities[r.Intn(len(verifC04Personalities))], r.Intn(2), size,
 				[]int64{1, 3, 8, 10}[r.Intn(4)], r.Range(0, size-1), r.Range(0, 64))})
 	}
-	hdrs := []string{"", "bytes", "bytes 0-0/1", "bytes 5-2/10", "bytes 10-20/5", "bytes 0-18446744073709551615/18446744073709551616",
+	// hostile Content-Range texts (parseRange through the real reply path) and reply parts
+	texts := []string{"", "bytes", "bytes 0-0/1", "bytes 5-2/10", "bytes 10-20/5", "bytes 0-18446744073709551615/18446744073709551616",
 		"bytes 99999999999999999999-1/2", "bytes 0-1/*", "bytes 0-1/99999999999999999999999", "bytes -1-2/3", "bytes 0--1/3", "BYTES 0-1/2",
-		"bytes 0-1/2 bytes 3-4/5", "bytes 9223372036854775807-9223372036854775807/9223372036854775807", "bytes 00000000000000000001-2/3", "bytes 1-2/\\*"}
-	for _, h := range hdrs {
-		inputs = append(inputs, verifc04.Input{Class: "range:hdr-fixed", Kind: "range", Op: "hdr", Data: []byte(h)})
-	}
-	for i := 0; i < n/3; i++ {
-		h := fmt.Sprintf("bytes %d-%d/%d", adv(0, 10), adv(0, 10), adv(10))
-		if r.Intn(4) == 0 {
-			h = string(r.Bytes(r.Intn(40)))
+		"bytes 0-1/2 bytes 3-4/5", "bytes 9223372036854775807-9223372036854775807/9223372036854775807", "bytes 00000000000000000001-2/3", "bytes 1-2/\\*",
+		"bytes 0-9223372036854775807/10", "bytes 9223372036854775806-9223372036854775807/10"}
+	for _, h := range texts {
+		for _, single := range []int{0, 1} {
+			inputs = append(inputs, verifc04.Input{Class: "range:hdr-fixed", Kind: "range",
+				Op: fmt.Sprintf("parts %d 100 10 35 10 %s:10", single, hex.EncodeToString([]byte(h)))})
 		}
-		inputs = append(inputs, verifc04.Input{Class: "range:hdr", Kind: "range", Op: "hdr", Data: []byte(h)})
 	}
 	for i := 0; i < n; i++ {
-		size := []int64{0, 1, 7, 8, 9, 64, 100}[r.Intn(7)]
+		size := []int64{1, 7, 8, 9, 64, 100}[r.Intn(6)]
 		chunk := []int64{1, 3, 8, 10}[r.Intn(4)]
-		off := r.Range(0, size)
+		off := r.Range(0, size-1)
 		ln := r.Range(0, 40)
 		if r.Intn(6) == 0 {
 			ln = adv(size)
 		}
-		op := fmt.Sprintf("blob %d %d %d %d", size, chunk, off, ln)
+		op := fmt.Sprintf("parts %d %d %d %d %d", r.Intn(4)/3, size, chunk, off, ln)
 		for k := 0; k < int(r.Range(0, 4)); k++ {
 			var b, e, cnt int64
 			if r.Intn(3) > 0 { // plausible: chunk aligned part
@@ -375,18 +412,14 @@ func TestVerifC04(t *testing.T) {
 				cnt = e - b + 1 - int64(r.Intn(3))*int64(r.Intn(2))
 			} else {
 				b, e, cnt = adv(0, size, chunk), adv(0, size, chunk), adv(0, chunk)
-				// a region comes out of parseRange: the regexp admits digits only, so both ends are
-				// within [0, 2^63-1] (anything else is a parse error, exercised by the hdr inputs)
-				if b < 0 {
-					b = -(b + 1)
-				}
-				if e < 0 {
-					e = -(e + 1)
-				}
 			}
-			op += fmt.Sprintf(" %d:%d:%d", b, e, cnt)
+			txt := cr(b, e, adv(size))
+			if r.Intn(12) == 0 {
+				txt = hex.EncodeToString(r.Bytes(r.Intn(30)))
+			}
+			op += fmt.Sprintf(" %s:%d", txt, cnt)
 		}
-		inputs = append(inputs, verifc04.Input{Class: "range:blob", Kind: "range", Op: op})
+		inputs = append(inputs, verifc04.Input{Class: "range:parts", Kind: "range", Op: op})
 	}
 	out.Comment(fmt.Sprintf("C04 remote binary: %d inputs", len(inputs)))
 	sum := verifc04.Run(out, inputs, verifc04.DefaultConfig())
